@@ -97,6 +97,10 @@ pub fn sources() -> Vec<Src> {
         let text = format!(".orig x{orig:04X}\nhalt\n.blkw x{n:X}\n");
         v.push(Src { name: format!("top-x{orig:04X}-{n:X}"), text, class: "valid-near-top-of-memory" });
     }
+    // degenerate sources: nothing to assemble is a valid (empty) program for all three
+    for (i, t) in ["", "\n", "; only a comment\n", ".orig x4000\n", ".end\n", ".orig x4000\n.end\n", "   \n\t\n"].iter().enumerate() {
+        v.push(Src { name: format!("degenerate{i}"), text: t.to_string(), class: "valid" });
+    }
     for (i, t) in ["push r0\nhalt", "pop r1\nhalt", "f rets\ncall f", "rets", "PUSH R0", "Call x\nx rets"].iter().enumerate() {
         v.push(Src { name: format!("stack{i}"), text: t.to_string(), class: "valid-stack" });
     }
@@ -235,7 +239,7 @@ pub fn run(ctx: &Ctx) -> i32 {
         ctx,
         acc,
         Level { category: "model_checking", bfs: None },
-        "exhaustive configuration enumeration against the real binary: every source of a 172-source corpus (valid seeds; lexer / parser / backpatch errors; for each of the 8 PC-relative kinds an out-of-range label reference one beyond the field limit, forwards and backwards, at every statement position 0..4, and the in-range neighbour; sources using push / pop / call / rets; programs ending around the top of user space and of memory; the straddling / inside pairs again in programs that do not fit in memory from their origin, with the references beyond the last word that fits) x feature setting {none, -f stack} x {check, compile, run}. Each run is classified success / diagnostic / crash; a crash is a violation; check success <=> compile success; compile success <=> run gets past assembling. Part B drives the real `lace watch`: every sequence of up to 2 (thorough 3) saves over 9 file contents (valid; valid with an in-range reference on the statement where another content has an out-of-range one; undefined label after labels were recorded; valid with the same label names elsewhere; using labels it does not define; lexer error; emission-only error), and after each save the verdict of the re-check must equal `lace check` on that content (an unobserved event is inconclusive). non-trivial = (source, flag) pairs on which the three commands agree + watch sequences whose every re-check agreed",
+        "exhaustive configuration enumeration against the real binary: every source of a 179-source corpus (valid seeds; lexer / parser / backpatch errors; for each of the 8 PC-relative kinds an out-of-range label reference one beyond the field limit, forwards and backwards, at every statement position 0..4, and the in-range neighbour; sources using push / pop / call / rets; programs ending around the top of user space and of memory; the straddling / inside pairs again in programs that do not fit in memory from their origin, with the references beyond the last word that fits) x feature setting {none, -f stack} x {check, compile, run}. Each run is classified success / diagnostic / crash; a crash is a violation; check success <=> compile success; compile success <=> run gets past assembling. Part B drives the real `lace watch`: every sequence of up to 2 (thorough 3) saves over 9 file contents (valid; valid with an in-range reference on the statement where another content has an out-of-range one; undefined label after labels were recorded; valid with the same label names elsewhere; using labels it does not define; lexer error; emission-only error), and after each save the verdict of the re-check must equal `lace check` on that content (an unobserved event is inconclusive). non-trivial = (source, flag) pairs on which the three commands agree + watch sequences whose every re-check agreed",
         true,
         &["all-accept", "all-reject", "emission-only-error-rejected-by-all"],
         &["`lace watch` is driven through the file system; inotify event timing is outside the claim: unobserved re-checks are counted as inconclusive"],
